@@ -38,13 +38,13 @@ enum ProbeId { P_rollover, P_rollover_all_generations_present, P_restart_on_empt
                P_restart_on_full, P_crash_in_write_call, P_crash_between_close_and_first_rename, P_crash_between_renames,
                P_crash_after_last_rename_before_open, P_crash_at_open, P_crash_outside_roll, P_torn_tail_glued,
                P_inflight_complete_after_crash, P_inflight_absent_after_crash, P_directory_created_by_policy,
-               P_max_gen_one, P_oversized_message, P_recovery_rolled_twice, P_degraded_window, P_exception_under_fault, P_files_handler_wrapper, P_long_entry, P_new_series_after_date_change, P_ten_or_more_generations_on_disk };
+               P_max_gen_one, P_oversized_message, P_recovery_rolled_twice, P_files_handler_wrapper, P_long_entry, P_new_series_after_date_change, P_ten_or_more_generations_on_disk };
 const char* const kProbeNames[] = { "rollover", "rollover_with_all_generations_present", "restart_on_empty_generation0",
                "restart_on_partly_filled_generation0", "restart_on_full_generation0", "crash_in_write_call",
                "crash_between_close_and_first_rename", "crash_between_two_renames", "crash_after_last_rename_before_open",
                "crash_at_open", "crash_outside_rollover", "torn_tail_glued_to_next_line", "inflight_message_complete_after_crash",
                "inflight_message_absent_after_crash", "directory_created_by_policy", "max_gen_one", "oversized_single_message",
-               "recovery_rolled_twice", "degraded_window_after_io_error", "exception_under_fault",
+               "recovery_rolled_twice",
                "through_files_handler_wrapper", "entry_longer_than_1000_bytes", "new_file_series_after_date_change", "ten_or_more_generation_files_on_disk" };
 
 /// formatter for the files::Handler wrapper: the message text as it is (the
@@ -836,8 +836,8 @@ struct Run
          {
             // the directory could not be created: nothing is open, messages
             // written now are lost until the next clean restart
-            st.probe( P_exception_under_fault);
-            st.probe( P_degraded_window);
+            ++st.misc[ "exception_under_injected_fault"];
+            ++st.misc[ "degraded_window_after_io_error"];
             degraded = true;
          } else if (threw)
          {
@@ -899,14 +899,14 @@ struct Run
                res.fail( "VIOLATION", "L1-open", when + ": re-opening the log files failed: " + what + ";" + describe( before));
                return;
             }
-            if (threw) st.probe( P_exception_under_fault);
+            if (threw) ++st.misc[ "exception_under_injected_fault"];
             if (err)
             {
                if (!threw) cur_rank = rank_now;   // re-opened under the name of the current date
                const Files  after = snapshot();
                checkLimits( after, when.c_str());
                degraded = true;
-               st.probe( P_degraded_window);
+               ++st.misc[ "degraded_window_after_io_error"];
                if (renameFaultFired( rep)) renameFailed();
                checkContent( after, when.c_str(), false);
             } else
@@ -980,14 +980,14 @@ struct Run
             res.fail( "VIOLATION", "E1-unexpected-exception", when + ": writeMessage() failed without an injected error: " + what);
             return;
          }
-         if (threw) st.probe( P_exception_under_fault);
+         if (threw) ++st.misc[ "exception_under_injected_fault"];
          cur.acked = !threw;
          if ((err || degraded) && rank_now != cur_rank && snapshot( rank_now) != new_before)
             cur_rank = rank_now;   // a roll-over moved on to the files of the current date
          const Files  after = snapshot();
          if (err || degraded)
          {
-            if (!degraded) st.probe( P_degraded_window);
+            if (!degraded) ++st.misc[ "degraded_window_after_io_error"];
             degraded = true;
             cur.may_be_missing = true;
             // a failed write may leave a part of the message behind (the text and
